@@ -77,6 +77,8 @@ def check_positive(case):
     payload = bx(case["payload"])
     f = Fails()
     cls = ["nt:program-looks-like-other-input"] if case.get("lookalike") else []
+    if case.get("digits"):
+        cls.append("nt:address-with-chosen-leading-base58-digits")
     if kind == "witness":
         v = case["witver"]
         want = template("witness", payload, v)
@@ -172,8 +174,25 @@ def check_negative(case):
     return cls, f
 
 
+def _hashes_by_address_digits(version, want, count):
+    """20-byte hashes (first byte 0, so that the hash sets the magnitude of a version-0 payload) whose Base58Check
+    address, after its leading '1's, starts with the given digits and has an even / odd number of digits left: the
+    value's leading Base58 digits are what digit-pair tables and chunked conversions trip over.  Found by search."""
+    out, i = [], 0
+    while len(out) < count and i < 20000:
+        h = b"\x00" + hashlib.sha256(b"C08/digits/%d" % i).digest()[:19]
+        a = rb58.check_encode(bytes([version]) + h).lstrip(b"1")
+        if a.startswith(want) and len(a) % 2 == len(out) % 2:
+            out.append(h)
+        i += 1
+    return out
+
+
 def enum_positive(tier):
     nets = ["mainnet", "testnet", "regtest"]
+    for want in (b"21", b"2z", b"zz"):
+        for h in _hashes_by_address_digits(0, want, 2):
+            yield {"kind": "p2pkh", "net": "mainnet", "payload": h.hex(), "digits": 1}
     fills = [("00", "zeros"), ("ff", "ones"), ("a5", "pattern")]
     for net in nets:
         for kind in ("p2pkh", "p2sh"):
@@ -340,7 +359,7 @@ def negative_cases(draw):
 
 def _targets(tier):
     return [
-        Target("positive", check_positive, enumerate_=enum_positive, required=["nt:v1-len40", "nt:v16-len2", "nt:witness-version>=1", "nt:program-len-not-20-32", "nt:program-looks-like-other-input"]),
+        Target("positive", check_positive, enumerate_=enum_positive, required=["nt:v1-len40", "nt:v16-len2", "nt:witness-version>=1", "nt:program-len-not-20-32", "nt:program-looks-like-other-input", "nt:address-with-chosen-leading-base58-digits"]),
         Target("positive-random", check_positive, strategy=lambda tier: positive_random(), budget={"quick": 3000, "thorough": 60000}),
         Target("keys", check_key, strategy=lambda tier: st.fixed_dictionaries({"k": gen.scalars_valid(), "high": st.sampled_from([None] * 7 + list(range(15))), "edge": st.sampled_from([False, False, True])}), budget={"quick": 400, "thorough": 8000},
                required=["nt:key-bytes-with-whitespace-or-nul-at-an-end", "nt:key-coordinate-in-n..p"]),
